@@ -168,7 +168,13 @@ def ref_parse(text):
     rest = toks[1:]
     out = []
     for k in kinds:
-        if k in ("uint8", "int8"):
+        if k == "uint8?":
+            if rest:
+                v = ref_int(rest.pop(0))
+                if v is None:
+                    return None
+                out.append(v)
+        elif k in ("uint8", "int8"):
             if not rest:
                 return None
             v = ref_int(rest.pop(0))
